@@ -27,6 +27,7 @@
 #include <sstream>
 #include <string>
 #include <sys/mman.h>
+#include <sys/resource.h>
 #include <sys/wait.h>
 #include <unistd.h>
 #include <unordered_set>
@@ -263,7 +264,16 @@ inline Outcome run_forked(const Sub &s, const Case &c) {
   pid_t pid = fork();
   if (pid == 0) {
     close(p[0]);
-    alarm(s.timeout_s);
+    {
+      // Hang detection is by CPU time, not wall-clock time (the harnesses never block for real: the
+      // kernel is simulated), so a loaded machine cannot turn a slow case into a "hang".  A very long
+      // wall-clock alarm is only a backstop against a child sleeping in a real system call.
+      struct rlimit rl;
+      rl.rlim_cur = (rlim_t)s.timeout_s;
+      rl.rlim_max = (rlim_t)s.timeout_s + 5;
+      setrlimit(RLIMIT_CPU, &rl);
+      alarm((unsigned)s.timeout_s * 60);
+    }
     static Outcome child_o;
     static int child_fd;
     static const Sub *child_sub;
@@ -299,8 +309,9 @@ inline Outcome run_forked(const Sub &s, const Case &c) {
     Outcome o;
     o.ok = false;
     int sg = WTERMSIG(wst);
-    o.sig = sg == SIGALRM ? "hang" : "crash";
-    o.msg = "child killed by signal " + std::to_string(sg);
+    o.sig = (sg == SIGXCPU || sg == SIGKILL || sg == SIGALRM) ? "hang" : "crash";
+    o.msg = sg == SIGXCPU || sg == SIGKILL ? "child exceeded its CPU-time limit of " + std::to_string(s.timeout_s) + " s (signal " + std::to_string(sg) + "): endless loop"
+                                           : "child killed by signal " + std::to_string(sg);
     return o;
   }
   if (WIFEXITED(wst) && WEXITSTATUS(wst) != 0) {
